@@ -5,7 +5,7 @@
    - on the complex numbers the model's kernel expressions [kcos]/[ksin] are cos and sin. *)
 From Coq Require Import Reals Lra QArith Qreals Qcanon.
 From Coquelicot Require Import Coquelicot.
-From LV Require Import Lib.Cis Model.Zernike Proofs.ZernikeP Proofs.ZernikeRadialP.
+From LV Require Import Lib.Cis Model.Zernike Proofs.ZernikeP Proofs.ZernikeRadialP Proofs.ZernikeEntryP.
 Local Open Scope R_scope.
 
 (* ------------------------------------------------------------------------------------------ *)
@@ -338,4 +338,120 @@ Proof.
   apply (is_RInt_val _ _ _ (Q2R (pinner (radial_terms m n) [((m + 2 * s)%Z, 1%Qc)]))).
   - rewrite radial_lower_moments by assumption. apply Q2R_Qc_0.
   - apply pinner_is_integral; [apply radial_terms_nonneg; lia|]. repeat constructor. cbn [fst]. lia.
+Qed.
+
+(* ------------------------------------------------------------------------------------------ *)
+(** * The default-coordinate path of zernike(): the exactly evaluated Cartesian form is the mode
+      evaluated at zernike_coordinates(mask) *)
+
+Lemma cpowq_polar (x y : Qc) (r theta : R) : Q2R x = r * cos theta -> Q2R y = r * sin theta ->
+  forall k, Q2R (fst (cpowq x y k)) = r ^ k * cos (INR k * theta) /\
+            Q2R (snd (cpowq x y k)) = r ^ k * sin (INR k * theta).
+Proof.
+  intros Hx Hy. induction k as [|k [IHc IHs]].
+  - cbn [cpowq fst snd pow INR]. rewrite Rmult_0_l, cos_0, sin_0, Q2R_Qc_1, Q2R_Qc_0. split; ring.
+  - cbn [cpowq fst snd]. rewrite Q2R_Qc_sub, Q2R_Qc_add, !Q2R_Qc_mul, IHc, IHs, Hx, Hy.
+    rewrite S_INR. replace ((INR k + 1) * theta) with (INR k * theta + theta) by ring.
+    rewrite cos_plus, sin_plus. cbn [pow]. split; ring.
+Qed.
+
+Lemma az_cart_polar m (x y : Qc) (r theta : R) : Q2R x = r * cos theta -> Q2R y = r * sin theta ->
+  Q2R (az_cart m x y) = r ^ Z.to_nat (Z.abs m) * Raz m theta.
+Proof.
+  intros Hx Hy. unfold az_cart, Raz. cbv zeta.
+  destruct (cpowq_polar x y r theta Hx Hy (Z.to_nat (Z.abs m))) as [Hc Hs].
+  assert (HI : INR (Z.to_nat (Z.abs m)) = IZR (Z.abs m)) by (rewrite INR_IZR_INZ, Z2Nat.id by lia; reflexivity).
+  destruct (Z.eqb_spec m 0) as [->|Hm].
+  - change (Z.to_nat (Z.abs 0)) with 0%nat. rewrite Q2R_Qc_1. cbn [pow]. ring.
+  - destruct (Z.ltb_spec 0 m).
+    + rewrite Hc, HI, Z.abs_eq by lia. reflexivity.
+    + rewrite Q2R_Qc_opp, Hs, HI, Z.abs_neq by lia. rewrite opp_IZR.
+      replace (- IZR m * theta) with (- (IZR m * theta)) by ring. rewrite sin_neg. ring.
+Qed.
+
+(* R_n^a(rho) = rho^a * (reduced polynomial in rho^2) *)
+Lemma Reval_reduced a n (rho : R) (t : Qc) : (0 <= a <= n)%Z -> Z.even (n - a) = true -> Q2R t = rho * rho ->
+  Reval (radial_terms a n) rho = rho ^ Z.to_nat a * Q2R (radial_reduced a n t).
+Proof.
+  intros Ha He Ht. unfold Reval, radial_terms, radial_reduced.
+  apply even_ex in He. destruct He as [d Hd].
+  assert (Hdd : ((n - a) / 2 = d)%Z) by lia. rewrite Hdd.
+  assert (G : forall l (A : R) (acc : Qc), (forall k, In k l -> (0 <= k <= d)%Z) -> A = rho ^ Z.to_nat a * Q2R acc ->
+     fold_left (fun (acc0 : R) (t0 : Z * Qc) => acc0 + Q2R (snd t0) * rho ^ Z.to_nat (fst t0))
+       (map (fun k : Z => ((n - 2 * k)%Z, rcoef a n k)) l) A
+     = rho ^ Z.to_nat a * Q2R (fold_left (fun (acc0 : Qc) (k : Z) => (acc0 + rcoef a n k * qpow t (d - k))%Qc) l acc)).
+  { induction l as [|k l IH]; intros A acc Hl HA; cbn [map fold_left]; [exact HA|].
+    apply IH; [intros; apply Hl; now right|]. cbn [fst snd].
+    rewrite Q2R_Qc_add, Q2R_Qc_mul, Q2R_qpow, Ht, HA.
+    assert (Hk : (0 <= k <= d)%Z) by (apply Hl; now left).
+    replace (Z.to_nat (n - 2 * k)) with (Z.to_nat a + 2 * Z.to_nat (d - k))%nat by lia.
+    rewrite pow_add, pow_mult. cbn [pow]. rewrite Rmult_1_r. ring. }
+  apply G.
+  - intros k Hk. apply zrange_In in Hk. lia.
+  - rewrite Q2R_Qc_0. ring.
+Qed.
+
+Theorem default_pt_polar m n (x y rm2 : Qc) (r theta : R) :
+  (Z.abs m <= n)%Z -> Z.even (n - Z.abs m) = true -> 0 < Q2R rm2 -> 0 <= r ->
+  Q2R x = r * cos theta -> Q2R y = r * sin theta ->
+  Q2R (radial_reduced (Z.abs m) n ((qsqr x + qsqr y) / rm2) * az_cart m x y / qpow rm2 (Z.abs m / 2))%Qc
+    / sqrt (Q2R rm2) ^ (Z.to_nat (Z.abs m mod 2))
+  = Reval (radial_terms (Z.abs m) n) (r / sqrt (Q2R rm2)) * Raz m theta.
+Proof.
+  intros Hm He Hpos Hr Hx Hy.
+  set (a := Z.abs m) in *. set (s := sqrt (Q2R rm2)).
+  assert (Hs : 0 < s) by (apply sqrt_lt_R0; exact Hpos).
+  assert (Hss : s * s = Q2R rm2) by (apply sqrt_sqrt; lra).
+  assert (Hne : rm2 <> 0%Qc) by (intro E; rewrite E, Q2R_Qc_0 in Hpos; lra).
+  assert (Ht : Q2R ((qsqr x + qsqr y) / rm2)%Qc = (r / s) * (r / s)).
+  { rewrite Q2R_Qc_div, Q2R_Qc_add by exact Hne. unfold qsqr. rewrite !Q2R_Qc_mul, Hx, Hy, <- Hss.
+    pose proof (sin2_cos2 theta) as P. unfold Rsqr in P.
+    replace (r * cos theta * (r * cos theta) + r * sin theta * (r * sin theta)) with (r * r * (sin theta * sin theta + cos theta * cos theta)) by ring.
+    rewrite P. field. lra. }
+  rewrite (Reval_reduced a n (r / s) _ ltac:(subst a; lia) He Ht).
+  assert (Hq : qpow rm2 (a / 2) <> 0%Qc).
+  { intro E. apply (f_equal (fun q : Qc => Q2R q)) in E. rewrite Q2R_qpow, Q2R_Qc_0 in E.
+    apply pow_nonzero in E; [exact E|lra]. }
+  rewrite Q2R_Qc_div, Q2R_Qc_mul, Q2R_qpow by exact Hq.
+  rewrite (az_cart_polar m x y r theta Hx Hy). fold a.
+  rewrite <- Hss.
+  assert (Hpow : (r / s) ^ Z.to_nat a * (s * s) ^ Z.to_nat (a / 2) * s ^ Z.to_nat (a mod 2) = r ^ Z.to_nat a).
+  { assert (E : s ^ Z.to_nat a = (s * s) ^ Z.to_nat (a / 2) * s ^ Z.to_nat (a mod 2)).
+    { replace (Z.to_nat a) with (2 * Z.to_nat (a / 2) + Z.to_nat (a mod 2))%nat at 1 by (subst a; lia).
+      rewrite pow_add, pow_mult. cbn [pow]. rewrite Rmult_1_r. reflexivity. }
+    unfold Rdiv. rewrite Rpow_mult_distr, pow_inv, Rmult_assoc, <- E. field. apply pow_nonzero. lra. }
+  rewrite <- Hpow. field. split; apply pow_nonzero; nra.
+Qed.
+
+Lemma Qclt_0_Q2R (q : Qc) : (0 < q)%Qc -> 0 < Q2R q.
+Proof. intros H. rewrite <- Q2R_Qc_0. apply Qreals.Qlt_Rlt. exact H. Qed.
+
+(* zernike(mask, j, normalize) with default coordinates, as executed (rational value, then the
+   irrational factors applied outside): it is the mode R_n^|m|(rho) az(m, theta) mask evaluated at
+   rho = r / sqrt(rmax2), theta = any polar angle of the direction vector of zernike_coordinates(mask) *)
+Theorem zernike_default_is_mode mask j nz d : zernike_default mask j nz = Ok d ->
+  exists c m n, zernike_coordinates mask = Ok c /\ noll j = (m, n) /\ (1 <= j)%Z /\
+    dm_norm2 d = norm2 m n nz /\ dm_rmax2 d = c_rmax2 c /\
+    ((0 < c_rmax2 c)%Qc -> forall i k (r theta : R), 0 <= r ->
+       Q2R (c_dirx c i k) = r * cos theta -> Q2R (c_diry c i k) = r * sin theta ->
+       Q2R (dm_val d i k) / sqrt (Q2R (dm_rmax2 d)) ^ (if dm_odd d then 1 else 0)
+       = Reval (radial_terms (Z.abs m) n) (r / sqrt (Q2R (c_rmax2 c))) * Raz m theta
+         * (if mask_bool (get mask i k) then 1 else 0)).
+Proof.
+  intros H. destruct (zernike_default_ok mask j nz d H) as [c [Hc [Hj [Hn2 [Hodd [Hrm Hval]]]]]].
+  destruct (noll j) as [m n] eqn:E. cbn [fst snd] in *.
+  exists c, m, n. repeat split; try assumption.
+  intros Hpos i k r theta Hr Hx Hy. rewrite Hval, Hrm, Hodd.
+  pose proof (noll_wf j Hj) as W. rewrite E in W. destruct W as [W0 [W1 [W2 _]]].
+  unfold zernike_default_pt. destruct (mask_bool (get mask i k)).
+  - destruct (coords_about_origin mask c Hc i k) as [Hrho [Hdx Hdy]].
+    assert (Et : c_rho2 c i k = ((qsqr (c_dirx c i k) + qsqr (c_diry c i k)) / c_rmax2 c)%Qc).
+    { rewrite Hrho, Hdx, Hdy. unfold qsqr, Qcdiv. ring. }
+    rewrite Et.
+    replace (if Z.odd m then 1 else 0)%nat with (Z.to_nat (Z.abs m mod 2)).
+    2:{ rewrite <- Z.negb_even. destruct (Z.even m) eqn:Ev; cbn [negb].
+        - apply even_ex in Ev. destruct Ev as [q ->]. replace (Z.abs (2 * q) mod 2)%Z with 0%Z by lia. reflexivity.
+        - apply odd_ex in Ev. destruct Ev as [q ->]. replace (Z.abs (2 * q + 1) mod 2)%Z with 1%Z by lia. reflexivity. }
+    rewrite (default_pt_polar m n _ _ _ r theta W1 W2 (Qclt_0_Q2R _ Hpos) Hr Hx Hy). ring.
+  - rewrite Q2R_Qc_0. unfold Rdiv. ring.
 Qed.
